@@ -651,13 +651,17 @@ class IPPO(MultiAgentRLAlgorithm):
                     + self.gamma * self.gae_lambda * next_non_terminal * last_gae_lambda
                 )
 
-            advantages = advantages.reshape((-1,))
-            values = values.reshape((-1,))
+            # Flatten agent-major (agent, step, env), the order in which
+            # concatenate_experiences_into_batches flattens states and actions
+            num_agents = len(states)
+            advantages, values, log_probs = (
+                x.reshape(num_steps, num_agents, -1).swapaxes(0, 1).reshape((-1,))
+                for x in (advantages, values, log_probs)
+            )
             returns = advantages + values
 
         states = concatenate_experiences_into_batches(states, obs_space)
         actions = concatenate_experiences_into_batches(actions, action_space)
-        log_probs = log_probs.reshape((-1,))
         experiences = (states, actions, log_probs, advantages, returns, values)
 
         # Move experiences to algo device
